@@ -35,7 +35,7 @@ Proof.
   - destruct (find_uni _ _); cbn; [apply bh_apply_dmx|apply bh_refl].
   - destruct (find_uni _ _); cbn; [apply bh_apply_dmx|apply bh_refl].
   - destruct (find_uni _ _); cbn; apply bh_refl.
-  - destruct (find_uni _ _); destruct on; cbn; split; reflexivity.
+  - destruct on; destruct (find_uni _ _); cbn; split; reflexivity.
   - destruct (find_uni _ _); cbn; split; reflexivity.
   - destruct (find_uni _ _); cbn; split; reflexivity.
   - destruct (find_uni _ _); cbn; apply bh_refl.
